@@ -863,6 +863,16 @@ func (s *hsServer) serve(c net.Conn, res *hsSrvResult, sec *hsSecrets, replies [
 		if replies != nil {
 			if nPlain <= len(replies) {
 				s.sendPlain(c, replies[nPlain-1])
+				if hsBurstBehind == nPlain {
+					// right behind this reply, before the client can have judged it: the frames of the aftermath
+					// (the reading routine may hold one of them when the exchange is given up)
+					var a hsW
+					a.u32(0x9ec20908) // new_session_created first_msg_id unique_id server_salt
+					a.u64(4)
+					a.u64(0x1111111111111111)
+					a.u64(0x2222222222222222)
+					s.sendPlain(c, a.b)
+				}
 			}
 			continue
 		}
@@ -1216,6 +1226,12 @@ func hsPanicSite() string {
 // unencrypted new_session_created and a bad_server_salt on the same connection. Nothing of an abandoned
 // exchange may reach the session store through them.
 var hsAftermath bool
+
+// hsAftermathLate: the store and the client are looked at 1.6 s after those frames instead of 30 ms
+var hsAftermathLate bool
+
+// hsBurstBehind: the replay server writes a plain new_session_created directly behind its reply of that number (0: never)
+var hsBurstBehind int
 
 // hsWarnMode: what the application does with the client's Warnings channel (a public field it may set after
 // NewMTProto) while hsExchangeOn runs the exchange:
@@ -1691,6 +1707,9 @@ func hsExchangePlan(p *hsPlan) *hsRun {
 			srv.sendPlain(c, b.b)
 		}
 		time.Sleep(30 * time.Millisecond)
+		if hsAftermathLate {
+			time.Sleep(1570 * time.Millisecond)
+		}
 	}
 	// Teardown without MTProto.Disconnect: Disconnect cancels the context, which closes the socket
 	// under the feet of the client's read loop, and that loop panics (kills the process) when the
